@@ -131,7 +131,10 @@ def histories(draw):
             ops.append({"op": o})
             if o == "rewrite":
                 nind = 0
-    return {"meta": meta, "meta2": meta2, "ops": ops, "thread_safe": draw(st.sampled_from([True, True, False]))}
+    return {"meta": meta, "meta2": meta2, "ops": ops, "thread_safe": draw(st.sampled_from([True, True, False])),
+            # the database path already exists as an empty file (tempfile.NamedTemporaryFile / mkstemp) when the store
+            # is created
+            "empty_file": draw(st.sampled_from([False, False, True]))}
 
 
 # ---------------------------------------------------------------- normalisation (what a JSON round trip must return)
@@ -293,9 +296,15 @@ def check_history(case):
     #                         after `prob` has been rebound by a reopen / rewrite step)
     try:
         db = os.path.join(prob.working_dir, "c10.sqlite")
+        if case.get("empty_file"):
+            open(db, "w").close()
+            classes.add("pre-created-empty-file")
         with guard("store"):
             # default = one connection per call (thread-safe mode); the single cached connection mode as well
-            prob.data_store = SqliteDataStore(prob, database_name=db, thread_safe=case.get("thread_safe", True))
+            if ts:
+                prob.data_store = SqliteDataStore(prob, database_name=db)
+            else:
+                prob.data_store = SqliteDataStore(prob, database_name=db, thread_safe=False)
         if not case.get("thread_safe", True):
             classes.add("single-connection-mode")
         objs = []
@@ -399,6 +408,13 @@ def check_history(case):
                 with guard("store"):
                     prob2.data_store = SqliteDataStore(prob2, database_name=db,
                                                        thread_safe=case.get("thread_safe", True))
+                # the reopening problem takes over the stored definitions (once, not on top of its own)
+                if [p_["name"] for p_ in prob2.parameters] != [p_["name"] for p_ in meta["parameters"]] or \
+                        [c_["name"] for c_ in prob2.costs] != [c_["name"] for c_ in meta["costs"]]:
+                    raise Violation("store", "reopen-write:definitions", "after reopening, the problem has parameters %r "
+                                    "and costs %r; stored were %r / %r" % (
+                                        [p_["name"] for p_ in prob2.parameters], [c_["name"] for c_ in prob2.costs],
+                                        [p_["name"] for p_ in meta["parameters"]], [c_["name"] for c_ in meta["costs"]]))
                 loaded = {i.id: i for i in prob2.individuals}
                 if sorted(loaded) != sorted(model):
                     raise Violation("store", "reopen-write:ids", "reopened store loaded ids %r, synchronised %r" % (
